@@ -100,6 +100,12 @@ Proof. exact C01_undo_restores_stage3_partial. Qed.
 Theorem C01_undo_restores_modify_flush_partial : forall O, ValLaws O -> C01_statement O (stage3_events O).
 Proof. exact C01_undo_restores_stage3_partial. Qed.
 
+Theorem C01_undo_restores_calc_then_remove_partial : forall O, ValLaws O -> C01_statement O (stage3_events O).
+Proof. exact C01_undo_restores_stage3_partial. Qed.
+
+Theorem C01_undo_restores_interleavings_partial : forall O, ValLaws O -> C01_statement O (stage3_events O).
+Proof. exact C01_undo_restores_stage3_partial. Qed.
+
 Theorem C01_undo_restores_calc_then_rename_encoded_partial : forall tt, tt_ok tt = true ->
   C01_statement (EOps tt) (stage3_events (EOps tt)).
 Proof. intros tt H. apply C01_undo_restores_stage3_partial. apply EOps_laws. exact H. Qed.
@@ -266,10 +272,10 @@ Example C01_docs_calcs_restore :
                  o_stored ZOps out = [BulkUpdateRecord ZOps nT [1] [(nA, [11])]; BulkUpdateRecord ZOps nT [1] [(nF, [11])]].
 Proof. split; [vm_compute; reflexivity|]. eexists. eexists. split; [vm_compute; reflexivity|]. split; reflexivity. Qed.
 
-(* Removals between a calc delta and the flush are NOT yet covered by a theorem (stage 3 covers renames, see above); this
-   concrete bundle -- AddColumn, Calc, RenameColumn, RemoveColumn, RemoveTable -- shows what the model does with
-   it: the delta follows the column through the rename, becomes defunct with the removals, is dropped because the
-   column was created in the bundle, and the undo list restores the start document. *)
+(* A bundle OUTSIDE the class of stage 3: it removes a FORMULA column that has values (lossy: the undo of RemoveColumn
+   does not carry them, the engine recalculates).  What the model does with it: the delta follows the column through the
+   rename, becomes defunct with the removals, is dropped because the column was created in the bundle, and the undo list
+   restores the start document. *)
 Definition ex4_events : list (event ZOps) :=
   [ Doc ZOps (AddColumn ZOps nT nF ciFormula);
     Calc ZOps nT nF [(1, (0, 10)); (2, (0, 20))];
